@@ -13,7 +13,8 @@ EXPLANATION = (
     "store (row over the reactant LIST, '- k[rl]*prod(y[IDX_r] for r in reactants)') and one gain store (row over "
     "the product list, '+' the identical monomial), unconditional; R4 y/lhs/fex bind rows to IDX_<alias> over the "
     "same species list; R5 no other writer of rhs; R6 reactant/product lists are built through _create_species "
-    "with a None filter and _create_species rejects pseudo-elements; R7 heating '+', cooling '-', wrapped once by "
+    "with a None filter (a comprehension filter or a guarded append loop), _create_species rejects pseudo-elements and every Species is truthy "
+    "(no __bool__/__len__), so the filter drops None only; R7 heating '+', cooling '-', wrapped once by "
     "(gamma-1)*(..)/kerg/npar into row n_spec, IDX_TGAS = NSPECIES; R8 each back-end RHS function pastes ode.fex "
     "through whitespace-only filters exactly once. Decides the shape of the generator, not values.")
 ASSUMPTIONS = [
@@ -430,6 +431,7 @@ def _r6(ctx):
                                   "list built from self._create_species(..) values with falsy (pseudo-element) results filtered out" if ok else why,
                                   found=None if ok else show(simp(fact.value))[:160])
     ctx.floor("R6", "reactant/product assignments", n_sites, 13)
+    species_truthiness(ctx, "R6")
     # _create_species returns None for pseudo-elements
     fn = pkg.method("Component", "_create_species")
     ctx.saw("naunet/component.py", "Component._create_species")
@@ -496,6 +498,37 @@ def _r6(ctx):
               "pseudo-elements, a real species whose name is a DEFAULT pseudo-element (e.g. a species named M) is silently dropped from the reaction terms",
               expected="default_pseudoelements if (not _known_elements and not _known_pseudoelements) else _known_pseudoelements",
               found="; ".join(f"{show(v)[:40]} if {[('' if p else 'not ') + show(g)[:60] for g, p in gs]}" for v, gs in rets))
+
+
+def species_truthiness(ctx, rule):
+    """The `if self._create_species(x)` filters are meant to drop None only: every Species instance must be truthy.  Python takes the
+    truth of an object from __bool__, else from __len__ != 0 -- a Species class (or base) that defines either can make a real
+    species (the electron: no elements) falsy, and the filters silently drop it from the reactant / product lists (rule shared
+    with C04)."""
+    import ast
+    from ..pymodel import package
+    pkg = package(ctx.tree)
+    ci = pkg.cls("Species")
+    ctx.saw(ci.file, "Species")
+    hit = None
+    for c in pkg.mro("Species"):
+        k = pkg.classes.get(c)
+        if not k:
+            continue
+        for special in ("__bool__", "__len__"):
+            if special in k.methods and hit is None:
+                fn = k.methods[special]
+                rets = [r.value for r in ast.walk(fn) if isinstance(r, ast.Return)]
+                always = special == "__bool__" and rets and all(isinstance(v, ast.Constant) and v.value is True for v in rets)
+                if not always:
+                    hit = (c, special, fn)
+        if hit or "__bool__" in k.methods:
+            break
+    ctx.check(hit is None, rule, "Species:always-truthy", (ci.file, hit[2].lineno if hit else ci.node.lineno),
+              "Species defines neither __bool__ nor __len__: every instance is truthy, the created-species filters drop None only" if hit is None else
+              f"{hit[0]}.{hit[1]} makes the truth value of a species depend on its content: a species for which it is 0/False (the electron has no "
+              "elements) is dropped by every `if self._create_species(x)` filter, its reactions lose a reactant/product and charge is not conserved",
+              expected="no __bool__ / __len__ on Species (or __bool__ returning True)", found=f"def {hit[1]}" if hit else None)
 
 
 def _filtered_create(v, fl=None):
@@ -719,6 +752,7 @@ MUTANTS = [
     {"name": "reaction-loop-by-index-shifted-rate", "edits": [
         {"file": T, "old": 'for rl, react in enumerate(tqdm(reactions, desc="Preparing ODE...")):', "new": 'for rl in range(len(reactions)):\n            react = reactions[rl]'},
         {"file": T, "old": 'rhs[specidx] += f" - {rate_sym}[{rl}]*{rsym_mul}"', "new": 'rhs[specidx] += f" - {rate_sym}[{rl - 1}]*{rsym_mul}"'}], "rules": ["R2"]},
+    {"name": "species-len-makes-electron-falsy", "file": "naunet/species.py", "old": "    def __hash__(self) -> int:\n", "new": "    def __len__(self) -> int:\n        return len(self.element_count)\n\n    def __hash__(self) -> int:\n", "rules": ["R6"]},
     {"name": "lhs-sorted", "file": T, "old": 'lhs = [f"ydot[IDX_{x.alias}]" for x in species]', "new": 'lhs = [f"ydot[IDX_{x.alias}]" for x in sorted(species)]', "rules": ["R4"]},
     {"name": "create-species-no-filter", "file": "naunet/reactions/reaction.py", "old": "[self._create_species(r) for r in reactants if self._create_species(r)]", "new": "[self._create_species(r) for r in reactants]", "rules": ["R6"]},
     {"name": "tgas-macro", "file": "naunet/templates/base/cpp/include/naunet_macros.h.j2", "old": "#define IDX_TGAS NSPECIES", "new": "#define IDX_TGAS NEQUATIONS", "rules": ["R4"]},
